@@ -67,6 +67,9 @@ func (f *bpFn) canon1(v ssa.Value) ssa.Value {
 	if !ok || u.Op != token.MUL {
 		return v
 	}
+	if ia, isIA := u.X.(*ssa.IndexAddr); isIA {
+		return f.canonElemLoad(u, ia)
+	}
 	fa, ok := u.X.(*ssa.FieldAddr)
 	if !ok {
 		return v
@@ -334,4 +337,67 @@ func (f *bpFn) lenLowerBoundAt(pt point, v ssa.Value) int64 {
 		}
 	}
 	return best
+}
+
+// canonElemLoad: two loads m[k] (constant k) of a list that this function received from a call and
+// only reads (FindStringSubmatch, Split: never stored into, never handed on) are the same value; the
+// later one is represented by the earlier one when that one dominates it.
+func (f *bpFn) canonElemLoad(u *ssa.UnOp, ia *ssa.IndexAddr) ssa.Value {
+	k, ok := constInt(ia.Index)
+	if !ok {
+		return u
+	}
+	m := ia.X
+	if _, isCall := m.(*ssa.Call); !isCall {
+		return u
+	}
+	if _, isSlice := m.Type().Underlying().(*types.Slice); !isSlice {
+		return u
+	}
+	refs := m.Referrers()
+	if refs == nil {
+		return u
+	}
+	for _, ref := range *refs {
+		switch x := ref.(type) {
+		case *ssa.IndexAddr:
+			for _, r2 := range *x.Referrers() {
+				if st, ok := r2.(*ssa.Store); ok && st.Addr == ssa.Value(x) {
+					return u
+				}
+				if _, isLoad := r2.(*ssa.UnOp); !isLoad {
+					if _, isDbg := r2.(*ssa.DebugRef); !isDbg {
+						return u // the element's address escapes
+					}
+				}
+			}
+		case *ssa.BinOp, *ssa.DebugRef:
+		case *ssa.Call:
+			if b, ok := x.Call.Value.(*ssa.Builtin); !ok || b.Name() != "len" {
+				return u
+			}
+		default:
+			return u
+		}
+	}
+	if f.elemLoads == nil {
+		f.elemLoads = map[elemKey]*ssa.UnOp{}
+	}
+	ek := elemKey{m, k}
+	if first, ok := f.elemLoads[ek]; ok {
+		if first != u && instrDominates(first, u) {
+			return first
+		}
+		if first != u && instrDominates(u, first) {
+			f.elemLoads[ek] = u
+		}
+		return u
+	}
+	f.elemLoads[ek] = u
+	return u
+}
+
+type elemKey struct {
+	m ssa.Value
+	k int64
 }
